@@ -410,6 +410,66 @@ func c16BindVsTimeout() *sched.Scenario {
 		}}
 }
 
+// c16FullDuplex: a bound connection carries data in both directions at the same time, over connections that are
+// plain net.Conns to the server (as crypto/tls connections are: io.Copy has no short cut and really uses its buffer).
+// Whatever the interleaving of the two copy loops, each end reads exactly the bytes the other end wrote.
+func c16FullDuplex() *sched.Scenario {
+	return &sched.Scenario{Name: "c16-both-directions-at-once", Bound: bound(), FreeBound: 2, Opt: opt,
+		Body: func(*vsched.Sched) (func() []string, func()) {
+			w := sched.NewBW(sched.BCfg{Stream: true, PlainConns: true})
+			c := w.NewClient("c1")
+			pl, err := w.Net.ListenTCPAddr("tcp4", &net.TCPAddr{IP: vtx.PeerSpec["B"].IP, Port: 5000})
+			if err != nil {
+				panic(err)
+			}
+			var nt notes
+			d1 := dataConn(w, c, 31001)
+			vsched.OnWind(func() { _ = d1.Close() })
+			const toPeer, toClient = "client->peer:0123456789abcdefghij", "peer->client:ZYXWVUTSRQPONMLKJIHG"
+			vsched.Go("driver", func() {
+				c.Do(wire.Allocate, tcp)
+				r := c.Do(wire.Connect, peer("B"))
+				id, ok := r.U32(wire.AttrConnectionID)
+				if !ok {
+					nt.set("connect", "failed")
+
+					return
+				}
+				peerEnd := pl.Take()
+				var tx [12]byte
+				copy(tx[:], "bind-duplex")
+				_, _ = d1.Write(bindReq(c, id, tx))
+				vsched.Block("await", "bind", func() bool { return d1.PendingIn() > 0 || d1.SawEOF() })
+				if m, _ := readResp(d1); m == nil || m.Class != wire.Success {
+					nt.set("bind", "refused")
+
+					return
+				}
+				vsched.Mark()
+				vsched.Go("peer-writer", func() { _, _ = peerEnd.Write([]byte(toClient)) })
+				_, _ = d1.Write([]byte(toPeer))
+				vsched.IdleSleep(time.Second)
+				atPeer, _ := peerEnd.TakeAll()
+				atClient, _ := d1.TakeAll()
+				nt.set("at-peer", string(atPeer))
+				nt.set("at-client", string(atClient))
+			})
+
+			return func() []string {
+				switch {
+				case nt.get("connect") == "failed" || nt.get("bind") == "refused":
+					return []string{"c16:harness:connect-or-bind-failed"}
+				case nt.get("at-peer") != toPeer:
+					return []string{fmt.Sprintf("c16:client-to-peer-bytes-differ\ngot %q", nt.get("at-peer"))}
+				case nt.get("at-client") != toClient:
+					return []string{fmt.Sprintf("c16:peer-to-client-bytes-differ\ngot %q", nt.get("at-client"))}
+				}
+
+				return nil
+			}, func() { _ = w.Srv.Close() }
+		}}
+}
+
 // ---------------------------------------------------------------- C15
 
 // balance checks the lifecycle log and the resources at quiescence, when every
@@ -993,7 +1053,7 @@ func TestC06Sched(t *testing.T) { run(t, "C06", c06Realloc(), c06ReallocVsTimer(
 func TestC05Sched(t *testing.T) { run(t, "C05", c05StreamRelayVsResponse()) }
 
 func TestC04Sched(t *testing.T) { run(t, "C04", c04TwoConns(), c06Reconnect()) }
-func TestC16Sched(t *testing.T) { run(t, "C16", c16TwoBinds(), c16BindVsTimeout()) }
+func TestC16Sched(t *testing.T) { run(t, "C16", c16TwoBinds(), c16BindVsTimeout(), c16FullDuplex()) }
 func TestC15Sched(t *testing.T) {
 	run(t, "C15", c15SlowCallback("alloc"), c15SlowCallback("perm"), c15SlowCallback("chan"), c15SlowCallbackReq("perm", "chanbind"), c15EqualDeadlines(), c15SlowDial("other"), c15SlowDial("own"))
 }
